@@ -16,5 +16,6 @@ CONSTANTS
   SummaryStateless = TRUE
   WeightsRebuilt = TRUE
   FeedCopied = TRUE
+  OutlierColumnsOwn = TRUE
 INVARIANT Functional
 CHECK_DEADLOCK FALSE
